@@ -160,6 +160,25 @@ def _rewrite_letchains(text: str):
     return text, cnt
 
 
+def _rewrite_dropargs(text: str, prefix: str, rep_args: str = ""):
+    """R-dropargs: `<prefix>(<anything balanced>)` -> `<prefix>(<rep_args>)`: the argument expression (an
+    error/report value built only for the message) is dropped.  Line count preserved."""
+    cnt = 0
+    pos = 0
+    while True:
+        m = mask(text)
+        k = m.find(prefix + "(", pos)
+        if k < 0:
+            break
+        open_idx = k + len(prefix)
+        end = match_brace(m, open_idx)
+        old = text[open_idx + 1:end]
+        text = text[:open_idx + 1] + rep_args + "\n" * old.count("\n") + text[end:]
+        pos = open_idx + 1
+        cnt += 1
+    return text, cnt
+
+
 def _rewrite_logs(text: str):
     """R-log: statements `trace!/debug!/info!/warn!/error!(..);` are removed (line count preserved)."""
     cnt = 0
@@ -221,8 +240,10 @@ class Piece:
 
 def _apply_rewrites(text: str, rws: List[Rw], unit: str, log: list) -> str:
     for rw in rws:
-        if rw.kind in ("err", "log", "attrs", "maperr", "letchain"):
-            if rw.kind == "letchain":
+        if rw.kind in ("err", "log", "attrs", "maperr", "letchain", "dropargs"):
+            if rw.kind == "dropargs":
+                text, cnt = _rewrite_dropargs(text, rw.pat, rw.rep)
+            elif rw.kind == "letchain":
                 text, cnt = _rewrite_letchains(text)
             elif rw.kind == "maperr":
                 text, cnt = _rewrite_maperr(text)
@@ -483,7 +504,7 @@ def _splice_body(u: Unit, body: str, file: str, first_line: int) -> List[Piece]:
     return pieces
 
 
-_PRIV_RE = re.compile(r"(?m)^(\s*)pub(\([^)]*\))?\s+((open |closed |uninterp |broadcast )*(spec fn|proof fn|fn|struct|enum|trait|type|const|mod)\b)")
+_PRIV_RE = re.compile(r"(?m)^([ \t]*)pub(\([^)]*\))?[ \t]+((open |closed |uninterp |broadcast )*(spec fn|proof fn|fn|struct|enum|trait|type|const|mod)\b)")
 
 
 def _privatize(txt: str) -> str:
